@@ -24,6 +24,7 @@ TIMES = 'history/times.py'; HFILES = 'history/files.py'; TNETS = 'server/tnetstr
 POLL = 'server/enip/poll.py'; DEFAULTS = 'server/enip/defaults.py'; NETWORK = 'server/network.py'
 
 VARIANTS = [
+    V( 'methods-write-without-data-size-hint', CLIENT, "send_path=None, timeout=None, send=True,\n data_size=None, # for response data_size estimation (as for the other services)\n sender_context=b'', **kwds ):\n req = dotdict()\n seg,elm,cnt = device.parse_path_elements( path )\n if cnt is not None:\n elements = cnt\n req.path = { 'segment': [ dotdict( s ) for s in seg ]}\n if tag_type is None:", "send_path=None, timeout=None, send=True,\n               sender_context=b'', **kwds ):\n        req			= dotdict()\n        seg,elm,cnt		= device.parse_path_elements( path )\n        if cnt is not None:\n            elements		= cnt\n        req.path		= { 'segment': [ dotdict( s ) for s in seg ]}\n        if tag_type is None:", fires=[ 'T-METHODS' ] ),
     V( 'opvalues-stripped-before-cast', CLIENT, "opr['data'] = list( map( cast, val_list ))", "opr['data']		= list( map( cast, ( v.strip() for v in val_list )))", fires=[ 'T-OPVALUES' ] ),
     V( 'opvalues-cast-by-comprehension', CLIENT, "opr['data'] = list( map( cast, val_list ))", "opr['data']		= [ cast( v ) for v in val_list ]", silent=[ 'T-OPVALUES' ] ),
     V( 'merge-test-with-a-local-edge', MODBUS, "if ( address < base + length\n or ( address // 10000 == base // 10000\n and address < base + length + ( reach or 1 ))):", "edge		= ( base // 10000 + 1 ) * 10000\n            if ( address < base + length\n                 or address < min( edge, base + length + ( reach or 1 ))):", silent=[ 'M-BANK', 'M-EXTENT' ] ),
